@@ -186,7 +186,7 @@ class Ctx:
         m = re.search(r"depth of the complete state graph search is (\d+)", out)
         if m:
             res["depth"] = int(m.group(1))
-        viol = re.search(r"Error: (Invariant (\S+) is violated|Action property (\S+) is violated|Temporal properties were violated|Deadlock reached)", out)
+        viol = re.search(r"Error: (Invariant (\S+) is violated|The invariant of (\S+) is equal to FALSE|Action property (\S+) is violated|Temporal properties were violated|Deadlock reached)", out)
         res["violated"] = viol.group(0) if viol else None
         res["completed"] = "Model checking completed. No error has been found." in out
         if label:
